@@ -20,7 +20,7 @@ HOOKS = dict(
     guard="verif",
     enable="go test -tags verif -overlay <generated overlay.json> (harness files are injected from /verif/harness; hook bodies compile only with -tags verif)",
     baseline_off_cmd="for m in . ./LICENSES/github.com/hashicorp/go-version ./LICENSES/github.com/hashicorp/golang-lru/v2; do (cd /repo/$m && GOFLAGS=-mod=mod GOPROXY=off go test -json -vet=off -count=1 -timeout 25m ./...); done",
-    source_commits=[],
+    source_commits=["7c1d62f", "26301e2"],
     add_only=True,
 )
 
@@ -29,7 +29,7 @@ ENGINES = [
          kind_free_text="TLC exhaustive model checking of spec/*.tla + replay of every generated transition into the real Go objects (harness/*, injected with go test -overlay) + TLC validation of traces recorded from the hooked code"),
 ]
 
-_PLANNED = "check not built yet; the TLA+ module and binding planned for it are described in DESIGN.md section 5"
+_PLANNED = "check still being built at the time of this commit (TLA+ module and binding described in DESIGN.md section 5); not claimed until it passes on the unchanged tree"
 NOT_APPLICABLE = {f"C{i:02d}": _PLANNED for i in range(1, 39)}
 NOT_APPLICABLE["C38"] = ("one-shot file-to-file translation with no state, schedule or history; the only oracle is the v1->v2 table the converter is generated from, "
                          "so a TLA+ transcription would restate the implementation (DESIGN.md section 6)")
